@@ -92,7 +92,7 @@ def invoke(ctx, main, args, wd, case_id, what):
 
 def _extract(ctx, e2e):
     import cij.cli.extract
-    n = ctx.pick(60, 2400)
+    n = ctx.pick(60, 24000)
     for i in range(n):
         case_id = f"extract{i}"
         if not ctx.mine(i, case_id):
@@ -164,7 +164,7 @@ def _extract(ctx, e2e):
 
 def _geotherm(ctx, e2e):
     import cij.cli.geotherm
-    n = ctx.pick(24, 900)
+    n = ctx.pick(24, 6000)
     for i in range(n):
         case_id = f"geo{i}"
         if not ctx.mine(10 ** 5 + i, case_id):
@@ -256,7 +256,7 @@ def _geotherm(ctx, e2e):
 def _real_outputs(ctx, e2e):
     """Tables produced by the real writer (as in C15), read back through extract."""
     import cij.cli.extract
-    n = ctx.pick(3, 60)
+    n = ctx.pick(3, 300)
     for i in range(n):
         case_id = f"real{i}"
         if not ctx.mine(2 * 10 ** 5 + i, case_id):
